@@ -144,7 +144,7 @@ func (e *env) streamSection() {
 		cat := "stream/" + s.fam
 		hl := 1 + s.derived + 7
 		want := fmt.Sprintf("%d,7", s.derived)
-		for i := 0; i < hlib.N(3, 16); i++ {
+		for i := 0; i < hlib.N(6, 24); i++ {
 			pt := rng.Bytes(rng.Pick(0, 1, rng.Intn(100), s.seg, 2*s.seg+rng.Intn(50), rng.Intn(3*s.seg+1)) % 20000)
 			ad := rng.Bytes(rng.Intn(24))
 			var ct []byte
@@ -202,7 +202,7 @@ func (e *env) streamSection() {
 			o.Count(cat + "/perturb")
 		}
 		// history of k writers
-		for hI := 0; hI < hlib.N(1, 4); hI++ {
+		for hI := 0; hI < hlib.N(2, 6); hI++ {
 			k := 2 + rng.Intn(11)
 			e.t.Reset()
 			e.t.Strict = true
